@@ -535,9 +535,16 @@ def rule_pandas_dtype_map(ctx):
     more than the name is not judged): int64 is not FLOAT, float64 is not NUMBER, a zone-aware datetime is not TIMESTAMP_NTZ."""
     prog = ctx.prog
     m = prog.mod("pandas_tools")
-    cands = [q for q, f in m.functions.items() if "." not in q and len(f.args.args) == 1
-             and sum(1 for r in ast.walk(f) if isinstance(r, ast.Return) and isinstance(r.value, ast.Constant) and isinstance(r.value.value, str)
-                     and r.value.value.split("(")[0].strip().upper() in _SF_TYPE_WORDS) >= 2]
+    # the dtype -> type function by role: a one-parameter function of the module that write_pandas calls while it builds its CREATE
+    # (whatever its body looks like: an if-ladder, a lookup table, named constants), or one that returns type names outright
+    wp = prog.fn("pandas_tools", "write_pandas")
+    called = {c.func.id for c in ast.walk(wp) if isinstance(c, ast.Call) and isinstance(c.func, ast.Name)}
+    cands = [q for q, f in m.functions.items() if "." not in q and len(f.args.args) == 1 and not f.args.kwonlyargs and (
+        (q in called and "dtype" in (f.args.args[0].arg + norm(f.args.args[0].annotation or ast.Constant(value="")) + q).lower())
+        or sum(1 for r in ast.walk(f) if isinstance(r, ast.Return) and isinstance(r.value, ast.Constant) and isinstance(r.value.value, str)
+               and r.value.value.split("(")[0].strip().upper() in _SF_TYPE_WORDS) >= 2)]
+    if not cands:
+        cands = [q for q, f in m.functions.items() if "." not in q and len(f.args.args) == 1 and q in called and "type" in q.lower()]
     ctx.floor("C01.c7 dtype -> column type functions", len(cands), 1)
     n = 0
     for q in cands:
